@@ -48,3 +48,15 @@ claim("C13", "proof",
       "Structure is enumerated, not symbolic: S <= 3 species, E <= 2 environments, graphs of 2 nodes, 6 dictionary shapes. "
       "L9 (3-D index bound) is assumed as a lemma instance. Valid positions only (invalid: C20). A1.",
       "deductive: symbolic execution of real source (generic iteration R1/R2) + SMT", "DESIGN.md 3/C13")
+claim("C15", "proof",
+      "RDGridSpace.get_cell_index / get_cell_coordinates / is_within_bounds / are_neighbors / get_neighbors are executed "
+      "symbolically for symbolic w,h,d >= 1, all 8 boundary combinations and symbolic cells in all position forms: "
+      "index<->coordinates bijection in both directions, is_within_bounds iff inside (accessors raise otherwise), "
+      "are_neighbors iff one wrap-aware step along one axis, symmetry, get_neighbors sound and complete w.r.t. that relation. "
+      "Nonlinear index arithmetic is staged through lemma schemas (quotient/remainder uniqueness, trunc = quotient, 3-D bound, "
+      "monotonicity) each proved by z3 in isolation in the same run. grid_to_graph is a bounded stand-in: exhaustive over "
+      "shapes <= 3x3x2 (thorough 4x4x3) x 8 boundary combinations on the untouched code.",
+      "Python side only so far: the engine's neighbour table and the kinetics candidate list are checked with C01/C11 once the "
+      "C++ front end covers them. grid_to_graph is bounded (not proved). A1 for int(a/b).",
+      "deductive: symbolic execution of real source + SMT with in-run proved lemma schemas; bounded exhaustive stand-in for grid_to_graph",
+      "DESIGN.md 3/C15")
